@@ -1414,6 +1414,41 @@ fn run_docs(args: &Args, rec: &mut Recorder) {
         let pats = sampled_patterns(&mut rng, &text, &rb, &alphabet, absent, 24, 6);
         big_case(rec, &mut rng, DocCase { text, rb, pats, shape: "random", alpha, bkind, k }, "huge-alphabet");
     }
+    // ---- stream 15: one context with many predecessors of Fibonacci frequencies ---------------
+    // The Huffman code of the symbols preceding a context is as deep as the skew of their
+    // frequencies allows: with m predecessors whose counts follow the Fibonacci numbers the tree is a
+    // chain m-1 levels deep.  Near-uniform texts never get past a dozen levels; these reach 16, 17
+    // and 18-bit code words (records `s X Y`, s drawn from m symbols).
+    let deep: &[usize] = if args.thorough { &[16, 17, 18, 19, 20] } else { &[17, 18, 19] };
+    for (i, &m) in deep.iter().enumerate() {
+        if !rec.wants() {
+            rec.skip();
+            continue;
+        }
+        let mut rng = Rng::for_case(args.seed, 15, i as u64);
+        let (x, y) = (1u32, 2u32);
+        let mut counts = vec![1usize, 1usize];
+        while counts.len() < m {
+            let n = counts.len();
+            counts.push(counts[n - 1] + counts[n - 2]);
+        }
+        let mut text = vec![];
+        let mut rb = vec![];
+        for (j, c) in counts.iter().enumerate() {
+            for _ in 0..*c {
+                rb.push(text.len());
+                text.push(100 + j as u32);
+                text.push(x);
+                text.push(y);
+            }
+        }
+        let mut pats: Vec<Vec<u32>> = (0..m).map(|j| vec![100 + j as u32, x, y]).collect();
+        pats.push(vec![x, y]);
+        pats.push(vec![y, 100]);
+        pats.push(vec![100 + m as u32, x]);
+        rec.count(&format!("deep-context.predecessors{}", m));
+        big_case(rec, &mut rng, DocCase { text, rb, pats, shape: "fibonacci-context", alpha: "small", bkind: "every-third", k: m + 2 }, "deep-context");
+    }
 }
 
 // ================================================================================================
